@@ -1,6 +1,7 @@
 """Generators shared by the helper-level slices (C03, C04, C10) and family-restricted
 instruction-level slices."""
 import os
+import re
 import corr
 from checks import c01
 
@@ -61,6 +62,12 @@ def acc(rng):
     return v
 
 
+def key_matches(k, prefixes):
+    """A handler key belongs to the family if it starts with one of the prefixes; a prefix written `~regex` is
+    searched anywhere in the key (used to select handlers by operand type)."""
+    return any(re.search(p[1:], k) if p.startswith("~") else k.startswith(p) for p in prefixes)
+
+
 def family_scripts(rng, prefixes, nstates):
     """Instruction-level scripts for every opcode whose handler key starts with one of prefixes."""
     import gen_dispatch
@@ -77,19 +84,16 @@ def family_scripts(rng, prefixes, nstates):
         if keys[w] is None:
             continue
         k, x = keys[w]
-        if k in missing or not any(k.startswith(p) for p in prefixes):
+        if k in missing or not key_matches(k, prefixes):
             continue
         for _ in range(nstates):
             scripts.append(["interp gen %x" % rng.bits(40), "interp step %x %x" % (w, rng.biased(16))])
         # the same opcode with the accumulators / products / factors at arithmetic boundary values;
         # small families get more cases per opcode (at least ~2000 per handler)
         for _ in range(max(1, nstates // 2, -(-2000 // per_key.get(k, 1)) if per_key.get(k, 1) < 2000 else 1)):
-            pokes = ["interp poke %s %x" % (f, acc(rng)) for f in ("a0", "a1", "b0", "b1")]
-            pokes += ["interp poke %s %x" % (f, rng.biased(32)) for f in ("p0", "p1") if rng.chance(1, 2)]
-            pokes += ["interp poke %s %x" % (f, rng.biased(16)) for f in ("x0", "y0", "x1", "y1", "sv") if rng.chance(1, 2)]
-            pokes += ["interp poke sata %x" % rng.below(2), "interp poke sat %x" % rng.below(2)]
+            pokes = c01.boundary_pokes(rng)
             scripts.append(["interp gen %x" % rng.bits(40)] + pokes + ["interp step %x %x" % (w, rng.biased(16))])
-    return scripts, keys, [k for k in missing if any(k.startswith(p) for p in prefixes)]
+    return scripts, keys, [k for k in missing if key_matches(k, prefixes)]
 
 
 def explore(prop, rng, tier, helper_scripts, prefixes, rule):
